@@ -167,6 +167,7 @@ class Expr:
         if not self.ok:
             return
         self.op = ex.op
+        self.inline = bool(ex.inline)
         self.cols, self.slots = [], []            # slots: ("col", name) | ("lit", value)
         a = list(ex.args)
         if self.op == "mapv":                     # model order: x :: default :: k1 :: v1 ...
@@ -412,6 +413,31 @@ def catalog_file(rows, keys, reps, exprs):
     return "\n".join(t), names
 
 
+# literal operands: every method of arity >= 2 whose catalogue form has only column operands is also run with a constant in each
+# argument position (x.maximum(0), (2.5).minimum(x), 2.5 + x, a.if_else(x, 0) ...); the condition of if_else / where stays a column
+LITERALS = {"num": [0, 2.5], "int": [2], "str": ["a"], "bool": [True]}
+
+
+def literal_variants(e):
+    """expression texts with one operand of e replaced by a literal (at least one column operand is kept)"""
+    if len(e.slots) < 2 or any(s[0] != "col" for s in e.slots):
+        return []
+    out = []
+    for i, (_, col) in enumerate(e.slots):
+        if e.op in ("if_else", "where") and i == 0:
+            continue
+        for v in LITERALS[COLTYPE[col]]:
+            parts = [c for _, c in e.slots]
+            parts[i] = repr(v) if not isinstance(v, str) else '"%s"' % v
+            if e.inline and len(parts) == 2:
+                text = "%s %s %s" % (parts[0], e.op, parts[1])
+            else:
+                head = "(%s)" % parts[0] if i == 0 else parts[0]
+                text = "%s.%s(%s)" % (head, e.op, ", ".join(parts[1:]))
+            out.append(text)
+    return out
+
+
 def build_exprs(cat_rows):
     exprs, unmodelled, seen = [], [], set()
     for (text, op, cl, pdy, sqy, pgy) in cat_rows:
@@ -440,6 +466,24 @@ def build_exprs(cat_rows):
         if e.ok and e.op in by_op:
             e.support = by_op[e.op]
             exprs.append(e)
+    done_ops = set()
+    for e0 in list(exprs):
+        if (e0.op, len(e0.slots)) in done_ops:
+            continue
+        vs = literal_variants(e0)
+        if vs:
+            done_ops.add((e0.op, len(e0.slots)))
+        for text in vs:
+            if text in seen:
+                continue
+            seen.add(text)
+            try:
+                e = Expr(text, "literal")
+            except Exception:
+                continue                               # the expression grammar / builder does not accept this form
+            if e.ok and e.op == e0.op:
+                e.support = by_op[e.op]
+                exprs.append(e)
     return exprs, unmodelled
 
 
@@ -597,7 +641,7 @@ def run(chk):
         "date / time methods (15 catalogue rows) are outside the modelled value domain: not covered (partial); _count / _ngroup / _uniform have no documented value",
         "mapv dictionaries with infinite values (not expressible in expression text; Pandas replaces them by the default: theorem C05_pandas_mapv_infinite_value_refuted) are not exercised",
         "transcendental functions are one uninterpreted symbol shared by specification and backends; which library function the symbol is bound to is checked on the grid only"]
-    chk.cov["rule"] = ("exhaustive grid: every class-e catalogue expression (plus %d extra one-method expressions) x every tuple of the per-type grid "
+    chk.cov["rule"] = ("exhaustive grid: every class-e catalogue expression (plus %d extra one-method expressions, plus every method of arity >= 2 with a literal 0 / 2.5 / 2 / 'a' / True in each argument position) x every tuple of the per-type grid "
                        "(numbers: null, +-inf, 0, +-1, +-2.5, 3 [+ NaN on Polars; thorough: 0.5, -0.25, 7, 100.75, -1000]; integers: null, 0,1,2,3,7,-1,-3; strings: null, '', 'a', \"a'b\", 'abcdef'; booleans: True, False, null) "
                        "inside the documented domain (decided by spec_method in Coq); every class p/g/w catalogue row x every group of 1..2 cells over null,0,1,-1,2.5,3 and of 3 cells over null,1,2.5 (thorough: 1..3 cells over the full grid and 4 cells over null,1,2.5; booleans: True,False,null up to 3 / 5 cells) inside the domain; the corpus /verif/corpus/C05 first; "
                        "4 backends; non-trivial = at least one non-null argument; distinct by (backend, expression, tuple)" % len(EXTRA_EXPR))
